@@ -41,6 +41,8 @@ class Walker:
         self.src_of_fd = {}     # fd -> handle of ping/chan source
         self.chan = {}          # c -> dict(q=[], senders=int, fd=, bound=, closed_delivered=False)
         self.timer = {}         # h -> dict(dl=None|int, armed=bool)
+        self.ctimer = {}        # composite h with a Timer sub-source -> dict(nsub, rereg_in)
+        self.has_ctimer = False
         self.idle_queue = []    # idle ids queued, in order
         self.idle_cancelled = set()
         self.idle_ran = {}
@@ -121,6 +123,13 @@ class Walker:
 
     def note_insert_spec(self, ws):
         h = int(ws[1])
+        if ws[2] == "compt":
+            # a composite with a Timer as its last sub-source: judged as a composite over its Generic sub-sources; the events
+            # of the Timer sub-source (sub index n+1) are judged by their own rule in on_callback
+            dl = int(ws[4])
+            ws = ws[:2] + ["comp", ws[3]] + ws[5:]
+            self.ctimer[h] = dict(nsub=int(ws[4]), rereg_in=None)
+            self.has_ctimer = True
         self.kind[h] = ws[2]
         self.spec[h] = ws
 
@@ -309,6 +318,11 @@ class Walker:
                     self.fail("C06", "double-drop", "source/callback of %d dropped %d times" % (h, self.drops[h]))
                 continue
             if tag == "16":
+                hh = int(ws[1])
+                if hh in self.ctimer and ws[2] in ("0", "1") and self.in_dispatch and self.snapshot is not None:
+                    # the composite (and its Timer) was (re)registered after this dispatch polled: an expiry already in the
+                    # batch may still arrive and leave a second wheel entry behind (finding F5)
+                    self.ctimer[hh]["rereg_in"] = self.disp_no
                 if ws[3] != "0":
                     self.reg_failed = True
                     self.excused.add(int(ws[1]))   # a failed (re/un)registration leaves the source in an unknown state
@@ -477,7 +491,21 @@ class Walker:
                 self.fail("C01", "never-inserted", "callback of source %d which is not inserted" % h)
         # --- causes
         snap = self.snapshot or {}
-        if kind == "comp" and judged:
+        ct = self.ctimer.get(h)
+        timer_sub = ct is not None and sub == ct["nsub"] + 1
+        if timer_sub:
+            # Timer sub-source of a composite: the reported deadline must be due. A Timer re-registered while its expiry was
+            # already in this dispatch's batch is the known stale-batch-event corner (finding F5)
+            if ct["rereg_in"] == self.disp_no:
+                ct["dup"] = True
+            if judged and now is not None and payload > now:
+                if ct.get("dup"):
+                    self.fail("C05", "early-rearmed-in-batch" if ct["rereg_in"] == self.disp_no else "early-after-rearm-in-batch", "the Timer sub-source of composite %d fired at phase %d with deadline %d still in the future" % (h, self.phase, payload))
+                else:
+                    self.fail("C01", "stale-timeout", "the Timer sub-source of composite %d was called back at phase %d for a timeout that is not its current arming: "
+                              "the reported deadline %d is still in the future (a cancelled arming fired)" % (h, self.phase, payload))
+                    self.fail("C05", "early", "the Timer sub-source of composite %d fired at phase %d with deadline %d still in the future" % (h, self.phase, payload))
+        if kind == "comp" and judged and not timer_sub:
             sp = self.spec.get(h)
             if sub >= 1 and sp:
                 subs = sp[5:]
@@ -552,8 +580,8 @@ class Walker:
                     self.pending_self.append(("dead", h))
         # --- what the script does
         self.run_script_silent(sc[2])
-        self.cur_ret = sc[0] if kind == "comp" else 0
-        if kind == "comp":
+        self.cur_ret = sc[0] if (kind == "comp" and not timer_sub) else 0
+        if kind == "comp" and not timer_sub:
             if sc[0] == 3:
                 self.pending_self.append(("dead", h))
         self.fired_this_dispatch = getattr(self, "fired_this_dispatch", set())
@@ -628,6 +656,8 @@ class Walker:
     def check_wheel(self, entries):
         if self.excused & set(self.timer.keys()):
             return
+        if self.has_ctimer:
+            return      # Timer sub-sources of composites own wheel entries too; their count is left to the model comparison
         armed = [h for h, t in self.timer.items() if t["armed"] and h in self.live]
         # entries may legitimately be fewer (never more) than armed timers... an armed timer has exactly one entry
         if len(entries) > len([h for h, t in self.timer.items() if h in self.live and t["dl"] is not None and h not in self.disabled]):
